@@ -7,7 +7,7 @@ export GOFLAGS=-mod=mod GOPROXY=off GOSUMDB=off GOTOOLCHAIN=local
 cd /verif
 WT=/tmp/mx-wt-$$; ALT=/tmp/mx-verif-$$
 git -C /repo worktree add --detach $WT HEAD >/dev/null 2>&1 || exit 1
-mkdir -p $ALT; cp known_findings.json $ALT/
+mkdir -p $ALT; cp known_findings.json levels.json $ALT/; cp -r bounded $ALT/
 claimed=$(python3 -c "import json;print(' '.join(c['property_id'] for c in json.load(open('MANIFEST.json'))['checks']))")
 seeds="$@"; [ -z "$seeds" ] && seeds=$(ls -d seeded/C*-* | sort)
 for d in $seeds; do
